@@ -103,14 +103,16 @@ private:
                 return a.get_interval().lb() < b.get_interval().lb();
               });
 
-    // Merge partitions if necessary.
-    // We traverse in reverse order so that removing partitions is constant
-    auto it = m_partitions.end();
-    --it;
-    for (; it != m_partitions.begin() && m_partitions.size() > 1;) {
-      --it;
+    // Merge partitions if necessary. The partitions are sorted by
+    // lower bound: a partition absorbs its successors as long as they
+    // overlap it, and the merged partition is compared again with its
+    // new successor (it can reach further than the one just absorbed).
+    for (auto it = m_partitions.begin(); m_partitions.size() > 1;) {
       auto next_it = it;
       ++next_it;
+      if (next_it == m_partitions.end()) {
+        break;
+      }
       if (it->get_interval().ub() >= next_it->get_interval().lb()) {
         // merge two partitions
         it->join_interval(*next_it);
@@ -119,6 +121,8 @@ private:
         v1 |= v2;
         it = (m_partitions.erase(next_it));
 	--it;
+      } else {
+        ++it;
       }
     }
     CRAB_LOG("partition",
